@@ -205,7 +205,8 @@ func vC09[T vFC]() {
 	vReach("C09")
 	isView := func(l string) bool { return l == "S" || l == "SS" }
 	kfViews := isView(la) || isView(lb)
-	kfMixed := ((la == "F") != (lb == "F") || (mode != "" && (la == "F" || lb == "F"))) && routine != "Trace"
+	// (TensorMul transposes and reshapes its operands with row-major arithmetic: any column-major operand, also two of them)
+	kfMixed := ((la == "F") != (lb == "F") || (mode != "" && (la == "F" || lb == "F")) || (routine == "TensorMul" && (la == "F" || lb == "F"))) && routine != "Trace"
 	vAssertKF2(!pan, "no-panic", "KF-C09-views", kfViews, "KF-C16-matmul-mixed", kfMixed)
 	if pan {
 		return
@@ -255,6 +256,11 @@ func vC09[T vFC]() {
 					}
 				}
 			}
+			if !okShape && vCfgStr("api") == "dot" {
+				// Dot treats (1,n)/(n,1) matrices as vectors (documented numpy-like dispatch): the product comes back without
+				// the unit axis - same elements in the same order
+				okShape = vIntsEqC(vSqueeze(gs), vSqueeze(rshape))
+			}
 		}
 		vAssertKF2(okShape, "shape", "KF-C09-views", kfViews, "KF-C16-matmul-mixed", kfMixed)
 		if !okShape {
@@ -289,7 +295,10 @@ func vC09[T vFC]() {
 	}
 	vC09Unchanged(a, aw, sa, "operand-a-unchanged")
 	if b != nil {
-		vC09Unchanged(b, bw, sb, "operand-b-unchanged")
+		// (C18's finding, sequential face: Dot(vector, matrix) transposes the matrix in place and undoes it with UT(), which
+		// also undoes a lazy transposition the caller had pending)
+		aVec := len(sa) == 1 || (len(sa) == 2 && (sa[0] == 1 || sa[1] == 1))
+		vC09UnchangedKF(b, bw, sb, "operand-b-unchanged", "KF-C18-dot-vm", vCfgStr("api") == "dot" && aVec && lb == "LT" && len(sb) == 2)
 	}
 	// chained use: the destination of a reuse product is an ordinary tensor afterwards - a second product with it as the
 	// left operand computes from what was just delivered (no stale transposition or view record may survive in it)
@@ -343,4 +352,26 @@ func vC09UnchangedKF[T vFC](t *Dense, want []T, shape []int, id string, kf strin
 	for k := range want {
 		vAssertKF(got[k] == want[k], id, kf, region)
 	}
+}
+
+func vSqueeze(s []int) []int {
+	var out []int
+	for _, d := range s {
+		if d != 1 {
+			out = append(out, d)
+		}
+	}
+	return out
+}
+
+func vIntsEqC(a, b []int) bool {
+	if len(a) != len(b) {
+		return false
+	}
+	for i := range a {
+		if a[i] != b[i] {
+			return false
+		}
+	}
+	return true
 }
